@@ -1975,6 +1975,11 @@ def chained_logic(
 
 def optimize_or(left: SymbolicExpression, right: SymbolicExpression) -> OR:
 
+    # a plain value (e.g. a Python bool) is a legal condition, as an operand it becomes a literal
+    left, right = (
+        operand if isinstance(operand, SymbolicExpression) else Literal(operand)
+        for operand in (left, right)
+    )
     # a predicate / symbolic function is itself a variable that is instantiated from its arguments, the variables
     # a side ranges over are the ones that have a domain
     left_vars = left._unique_variables_.filter(
